@@ -4,7 +4,7 @@ harness observed and return mutation flags and the sharing matrix; run raw NumPy
 steps (to tie the view / fresh classification to NumPy on every run).
 -/
 import PyttbModel.Core.Codec
-import PyttbModel.Heap.Table
+import PyttbModel.Heap.Table2
 open Lean Pyttb Pyttb.Codec Pyttb.Heap
 namespace Pyttb.Driver
 
@@ -22,7 +22,8 @@ private def asParams (j : Json) : R Params := do
   let k ← optField j "k" asNat 0
   let dims ← optField j "dims" asNats []
   let flag ← optField j "flag" asStr ""
-  .ok { perm, shape, copy, n, m, k, dims, flag }
+  let kinds ← optField j "kinds" asNats []
+  .ok { perm, shape, copy, n, m, k, dims, flag, kinds }
 
 /-- operand i lives alone in buffer i -/
 private def asOperands (j : Json) : R (List View) := do
